@@ -55,4 +55,15 @@ theorem mem_sliceStep (g : PGraph) (start stop S : List Nat) (j : Nat) :
       | false => rfl
       | true => exact absurd (List.contains_iff_mem.mp hc) hs
 
+theorem mem_ethosuCandidates (src out : PGraph) (sop oop : POp) (k : Nat) :
+    (oop, k) ∈ ethosuCandidates src out sop ↔
+      out.ops[k]? = some oop ∧ isEthosU oop = true ∧ outKey out oop = outKey src sop := by
+  unfold ethosuCandidates
+  simp only [List.mem_filter, Bool.and_eq_true, beq_iff_eq]
+  constructor
+  · rintro ⟨hm, he, hk⟩
+    exact ⟨List.mem_zipIdx_iff_getElem?.mp hm, he, hk⟩
+  · rintro ⟨hm, he, hk⟩
+    exact ⟨mem_zipIdx' hm, he, hk⟩
+
 end VelaVerif.Preserve
